@@ -101,6 +101,7 @@ type Exec struct {
 	Diverged string
 	Pruned   bool
 	envHash  uint64
+	epoch2   uint64 // hash of the global events (clock changes) so far: mixed into every later operation
 	// callbacks
 	onChoice func(x *Exec, cp *ChoicePoint) bool // return false to prune (abort) the execution
 	addrObjs map[uintptr]*Obj
@@ -351,11 +352,11 @@ func (x *Exec) noteOp(t *Thread, op *Op) {
 			x.Conflicts++
 		}
 		x.lastTouch[o] = t.ID
-		h := mix(mix(t.hash, o.hash^o.name), strHash(op.Kind))
+		h := mix(mix(t.hash, o.hash^o.name), strHash(op.Kind)^x.epoch2)
 		t.hash = h
 		o.hash = h
 	} else {
-		t.hash = mix(t.hash, strHash(op.Kind))
+		t.hash = mix(t.hash, strHash(op.Kind)^x.epoch2)
 	}
 	if x.KeepTrace && x.quiet == 0 {
 		x.Trace = append(x.Trace, fmt.Sprintf("T%d %s%s", t.ID, op.Kind, t.whereStr()))
@@ -702,4 +703,15 @@ func LockDoubles() func() {
 	}
 	FreeMu.Lock()
 	return FreeMu.Unlock
+}
+
+// GlobalEvent records a change of state that every thread can read without a scheduling point of its
+// own (the virtual clock). Operations performed after it hash differently from the same operations
+// performed before it, so the happens-before state key distinguishes "read the clock before the tick"
+// from "after the tick".
+func GlobalEvent(label string) {
+	if x := Cur(); x != nil {
+		x.epoch2 = mix(x.epoch2+1, strHash(label))
+		x.envHash = mix(x.envHash, x.epoch2)
+	}
 }
